@@ -26,7 +26,7 @@ type ldScenario struct {
 	Getters    int      `json:"getters"`
 	Bulk       int      `json:"bulk"`       // BulkGet callers over keys {1,2}
 	Refreshers int      `json:"refreshers"` // Refresh callers
-	Writers    []string `json:"writers"`    // set | setifabsent | invalidate | compute | evict | invalidateAll
+	Writers    []string `json:"writers"`    // set | setifabsent | invalidate | compute | computeinv | evict | invalidateAll
 	Preload    int      `json:"preload"`    // 1 = key 1 holds a value before the race (needed for reloads)
 	Outcomes   []string `json:"outcomes"`   // loader outcomes drawn per invocation
 	Policy     string   `json:"policy"`
@@ -281,6 +281,8 @@ func runLoadScenario(sc ldScenario) ldResult {
 				c.Invalidate(1)
 			case "compute":
 				c.Compute(1, func(old int, found bool) (int, ComputeOp) { return wv, WriteOp })
+			case "computeinv":
+				c.Compute(1, func(old int, found bool) (int, ComputeOp) { return 0, InvalidateOp })
 			case "evict":
 				c.SetMaximum(0)
 				c.SetMaximum(10)
